@@ -1652,6 +1652,24 @@ fintStmt(DataObj retDataObj)
 	case FOAM_Values:
 	case FOAM_Catch:
 	case FOAM_EEnsure:
+	case FOAM_Loc: /* plain values used as statements: -Q0 leaves them */
+	case FOAM_Par:
+	case FOAM_Glo:
+	case FOAM_Lex:
+	case FOAM_Const:
+	case FOAM_Char:
+	case FOAM_Bool:
+	case FOAM_Byte:
+	case FOAM_HInt:
+	case FOAM_SInt:
+	case FOAM_BInt:
+	case FOAM_SFlo:
+	case FOAM_DFlo:
+	case FOAM_Arr:
+	case FOAM_AElt:
+	case FOAM_RElt:
+	case FOAM_EElt:
+	case FOAM_Clos:
 		ip = stmtPos;
 		(void)fintEval(&expr); /* we ignore the ret value */
 		break;
@@ -1660,8 +1678,6 @@ fintStmt(DataObj retDataObj)
 		fintDEBUG(dbOut, "(Label %d)\n", n);
 		break;
 	case FOAM_Nil:
-	case FOAM_Lex: /* we get things like that when we -q0 (deadvar
-			is effective in killing them */
 	case FOAM_NOp:
 		break;
 	default:
